@@ -68,6 +68,16 @@ def compare_modes(outs, what_fn, case, report, check):
                 report.violation({"check": check, "problem": "value_differs", "node": case["node"]},
                                  f"{what_fn()}: {d} gives {codec.show(v, 60)} but ALL gives {codec.show(ref, 60)}", case)
         return
+    # whether a failure IS a LoadError decides what `except LoadError` (a union around, the caller) does with it: when DISABLE or
+    # FIRST raise something that is no LoadError (a user loader's own exception), ALL may not wrap it into a LoadError
+    from adaptix.load_error import LoadError as _LoadError
+    for d in ("DISABLE", "FIRST"):
+        if not isinstance(outs[d].exc, _LoadError) and isinstance(outs["ALL"].exc, _LoadError) \
+                and any(not isinstance(x, _LoadError) for x in leaves_of(outs["ALL"].exc)):
+            report.violation({"check": check, "problem": "unexpected_error_becomes_LoadError_under_ALL", "node": case["node"]},
+                             f"{what_fn()}: {d} raised {type(outs[d].exc).__name__} (no LoadError) but ALL raised "
+                             f"{type(outs['ALL'].exc).__name__}, a LoadError carrying it", case)
+            return
     all_leaves = leaves_of(outs["ALL"].exc)
     for d in ("DISABLE", "FIRST"):
         for leaf in leaves_of(outs[d].exc):
